@@ -8,13 +8,14 @@ From PV Require Import Common.Util Gen.StateConsts StateVar.StateModel StateVar.
    state.getattr / state.names / re-reads of captured snapshots, with arbitrary step-local Python variables) interleaved
    with external hass.states.async_set / async_remove / service (un)registration, started in any state whose stored
    values are strings: the Model of state.py + eval.py's dotted-name routing (all deviation switches off) produces the
-   same list of outputs (values / exception types seen by the script) and the same final state (state machine, services,
-   global Python objects, captured snapshots) as the documented rules [run_spec]. *)
+   same list of outputs (values / exception types seen by the script) and the same final state (state machine incl. the
+   last_changed / last_updated / last_reported stamps as logical step times, services, global Python objects, captured
+   snapshots with their virtual fields) as the documented rules [run_spec].  [now] is the logical time of the first step. *)
 Theorem C16_refines : forall (H : host) (funcs : list ename) (svcargs : list (ident * ident)),
   (forall v, h_str H (h_str H v) = h_str H v) -> (forall v, h_str H v <> v_none) ->
-  forall (steps : list step) (st : mstate), wf_state H st ->
-  run_model {| cf_dev := all_off; cf_host := H; cf_funcs := funcs; cf_svcargs := svcargs |} st steps
-  = run_spec H funcs svcargs st steps.
+  forall (steps : list step) (now : N) (st : mstate), wf_state H st ->
+  run_model {| cf_dev := all_off; cf_host := H; cf_funcs := funcs; cf_svcargs := svcargs |} now st steps
+  = run_spec H funcs svcargs now st steps.
 Proof. exact run_refines. Qed.
 Print Assumptions C16_refines.
 
@@ -36,14 +37,14 @@ Print Assumptions C16_host_tables.
 (* A captured snapshot never changes afterwards: it is exactly the entity's value + attributes + virtual fields at the
    time of capture, and after ANY later sequence of operations and external changes (under any deviation switches) that
    does not reassign the variable, reading the variable returns exactly that snapshot. *)
-Theorem C16_snapshot_immutable : forall cf st d n j s later,
+Theorem C16_snapshot_immutable : forall cf now st d n j s later,
   ha_get (ms_ha st) (d, n) = Some s ->
   forallb (fun x => negb (writes_slot j x)) later = true ->
   let snap := stateval_new (cf_host cf) (d, n) s in
-  let st1 := snd (model_step cf st (SScript [] (OGet [d; n] (Some j)))) in
-  let st2 := snd (run_model cf st1 later) in
-  fst (model_step cf st (SScript [] (OGet [d; n] (Some j)))) = Some (Ok snap) /\
-  fst (model_step cf st2 (SScript [] (OReadSlot j))) = Some (Ok snap).
+  let st1 := snd (model_step cf now st (SScript [] (OGet [d; n] (Some j)))) in
+  let st2 := snd (run_model cf (N.succ now) st1 later) in
+  forall now', fst (model_step cf now st (SScript [] (OGet [d; n] (Some j)))) = Some (Ok snap) /\
+  fst (model_step cf now' st2 (SScript [] (OReadSlot j))) = Some (Ok snap).
 Proof. exact snapshot_immutable. Qed.
 Print Assumptions C16_snapshot_immutable.
 
@@ -51,7 +52,7 @@ Print Assumptions C16_snapshot_immutable.
 Theorem C16_priority : forall cf locals st d n,
   (forall o, is_pyvar locals st d o ->
      aeval_dn cf locals st (DAttr (DHead d) n) = of_res (obj_attr o n) /\
-     forall val st', assign_dn cf locals st (DAttr (DHead d) n) val = Ok st' ->
+     forall now val st', assign_dn cf locals st now (DAttr (DHead d) n) val = Ok st' ->
                      ms_ha st' = ms_ha st /\ ms_svcs st' = ms_svcs st) /\
   (no_pyvar locals st d -> mem_ename (d, n) (cf_funcs cf) || mem_ename (d, n) (ms_svcs st) = true ->
      aeval_dn cf locals st (DAttr (DHead d) n) = EV PFunc) /\
@@ -69,27 +70,27 @@ Proof. exact priority_instance. Qed.
 Print Assumptions C16_priority_instance.
 
 (* with D7 repaired the priority also holds for del *)
-Theorem C16_priority_del : forall cf locals st d n o st',
+Theorem C16_priority_del : forall cf locals st now d n o st',
   d_del_ignores_pyvar (cf_dev cf) = false -> is_pyvar locals st d o ->
-  delete_dn cf locals st (DAttr (DHead d) n) = Ok st' -> ms_ha st' = ms_ha st /\ ms_svcs st' = ms_svcs st.
+  delete_dn cf locals st now (DAttr (DHead d) n) = Ok st' -> ms_ha st' = ms_ha st /\ ms_svcs st' = ms_svcs st.
 Proof. exact priority_del. Qed.
 Print Assumptions C16_priority_del.
 
 (* the three open findings: with the switch on (= today's code) the refinement fails on the witness *)
 Theorem C16_refuted_D160 :
   exists steps, wf_state ex_host ex_state /\
-    run_model (ex_cfg (only 160)) ex_state steps <> run_spec ex_host ex_funcs [(1, 13)]%N ex_state steps.
+    run_model (ex_cfg (only 160)) 4 ex_state steps <> run_spec ex_host ex_funcs [(1, 13)]%N 4 ex_state steps.
 Proof. exact refuted_D160. Qed.
 Print Assumptions C16_refuted_D160.
 
 Theorem C16_refuted_D161 :
   exists steps, wf_state ex_host ex_state /\
-    run_model (ex_cfg (only 161)) ex_state steps <> run_spec ex_host ex_funcs [(1, 13)]%N ex_state steps.
+    run_model (ex_cfg (only 161)) 4 ex_state steps <> run_spec ex_host ex_funcs [(1, 13)]%N 4 ex_state steps.
 Proof. exact refuted_D161. Qed.
 Print Assumptions C16_refuted_D161.
 
 Theorem C16_refuted_D7 :
   exists steps, wf_state ex_host ex_state /\
-    run_model (ex_cfg (only 7)) ex_state steps <> run_spec ex_host ex_funcs [(1, 13)]%N ex_state steps.
+    run_model (ex_cfg (only 7)) 4 ex_state steps <> run_spec ex_host ex_funcs [(1, 13)]%N 4 ex_state steps.
 Proof. exact refuted_D7. Qed.
 Print Assumptions C16_refuted_D7.
